@@ -399,6 +399,12 @@ class SerializedIndexEntry:
         )
 
 
+# Extensions that describe where the entries lie in the file git wrote
+# ("end of index entries", "index entry offset table"): they are wrong for
+# any other layout, and git believes them, so they are not written back.
+_LAYOUT_EXTENSIONS = (b"EOIE", b"IEOT")
+
+
 @dataclass
 class IndexExtension:
     """Base class for index extensions."""
@@ -1226,7 +1232,9 @@ class Index:
             # written back as it was read, an empty payload included
             meaningful_extensions = []
             for ext in self._extensions:
-                if not isinstance(ext, TreeExtension):
+                if not isinstance(ext, TreeExtension) and (
+                    ext.signature not in _LAYOUT_EXTENSIONS
+                ):
                     meaningful_extensions.append(ext)
 
             if self._skip_hash:
@@ -3728,6 +3736,7 @@ class locked_index:
                     ext
                     for ext in self._index._extensions
                     if not isinstance(ext, TreeExtension)
+                    and ext.signature not in _LAYOUT_EXTENSIONS
                 ],
             )
             # (the checksum is written by close(): a failure there must give
